@@ -449,7 +449,7 @@ func init() {
 	nf, ns := len(c11Faults()), len(c11Slots())
 	nseed := len(seedPrograms())
 	nk := len(c11BadStmts) + 3
-	fw.Register(&fw.Prop{
+	register(&fw.Prop{
 		ID: "C11",
 		Rule: fmt.Sprintf("%d fault kinds (and 4 benign expressions) x %d syntactic slots incl. 9 never-evaluated twins, each between a print before and a print after; the model gives the exact output up to the fault and the outcome; ", nf-4, ns) +
 			fmt.Sprintf("syntax splices: %d seed programs (all print in BEGIN first) x every statement position of every rule body x %d certainly-bad statements, x every token boundary x {illegal character, stray ')', token deleted}; ", nseed, len(c11BadStmts)) +
